@@ -106,6 +106,9 @@ struct Case {
     api: Api,
     /// one action per input index; everything after the first fault is never executed
     script: Vec<Act>,
+    /// error type of the converter: 0 plain `Copy` struct, 1 heap-owning, 2 zero-size, 3 large (264 bytes)
+    #[serde(default)]
+    err: u8,
 }
 
 impl Case {
@@ -119,6 +122,7 @@ impl Case {
         fold(&mut h, self.len as u64);
         fold(&mut h, self.extra_cap as u64);
         fold(&mut h, self.api as u64);
+        fold(&mut h, self.err as u64);
         for a in &self.script {
             fold(&mut h, a.code());
             if a.is_fault() {
@@ -169,6 +173,69 @@ struct InjectedErr {
     id: u64,
 }
 
+/// The converter's error type is a dimension of the case: the runtime moves the error out of the
+/// converter's result while it tears the half-converted vector down.
+trait ErrVal: 'static {
+    fn make(id: u64) -> Self;
+    /// the identity carried by the value (`None`: the type cannot carry one), and whether it is intact
+    fn id(&self) -> Option<u64>;
+}
+impl ErrVal for InjectedErr {
+    fn make(id: u64) -> Self {
+        InjectedErr { id }
+    }
+    fn id(&self) -> Option<u64> {
+        Some(self.id)
+    }
+}
+/// owns a heap block: a lost error shows as live bytes, a duplicated one as a double free
+struct ErrHeap(Box<[u64; 3]>);
+impl ErrVal for ErrHeap {
+    fn make(id: u64) -> Self {
+        ErrHeap(Box::new([id, !id, id.rotate_left(17)]))
+    }
+    fn id(&self) -> Option<u64> {
+        let [a, b, c] = *self.0;
+        Some(if b == !a && c == a.rotate_left(17) { a } else { u64::MAX })
+    }
+}
+struct ErrZst;
+impl ErrVal for ErrZst {
+    fn make(_: u64) -> Self {
+        ErrZst
+    }
+    fn id(&self) -> Option<u64> {
+        None
+    }
+}
+/// larger than any element type: returned through memory, not registers
+struct ErrBig {
+    id: u64,
+    pad: [u64; 32],
+}
+impl ErrVal for ErrBig {
+    fn make(id: u64) -> Self {
+        let mut pad = [0u64; 32];
+        for (i, p) in pad.iter_mut().enumerate() {
+            *p = id ^ (i as u64).wrapping_mul(0x9e37_79b9_7f4a_7c15);
+        }
+        ErrBig { id, pad }
+    }
+    fn id(&self) -> Option<u64> {
+        let ok = self.pad.iter().enumerate().all(|(i, p)| *p == self.id ^ (i as u64).wrapping_mul(0x9e37_79b9_7f4a_7c15));
+        Some(if ok { self.id } else { u64::MAX })
+    }
+}
+
+fn run_case_any<T: Val, U: Val>(case: &Case) -> Outcome {
+    match case.err {
+        1 => run_case::<T, U, ErrHeap>(case),
+        2 => run_case::<T, U, ErrZst>(case),
+        3 => run_case::<T, U, ErrBig>(case),
+        _ => run_case::<T, U, InjectedErr>(case),
+    }
+}
+
 #[derive(Debug, PartialEq, Eq, Clone, Copy)]
 struct CustomPayload {
     id: u64,
@@ -197,7 +264,7 @@ impl Shared {
 
 const FAULT_ID_BASE: u64 = 0x5151_0000;
 
-fn run_case<T: Val, U: Val>(case: &Case) -> Outcome {
+fn run_case<T: Val, U: Val, E: ErrVal>(case: &Case) -> Outcome {
     let mut out = Outcome::default();
     out.hash = FNV_INIT;
     ledger::reset();
@@ -245,7 +312,7 @@ fn run_case<T: Val, U: Val>(case: &Case) -> Outcome {
     let inputs_ref = &inputs;
     let script_ref = &script;
     let shared_ref = &shared;
-    let converter = move |t: T, mut prev: Option<&mut U>| -> Result<VecElementConversionResult<U>, InjectedErr> {
+    let converter = move |t: T, mut prev: Option<&mut U>| -> Result<VecElementConversionResult<U>, E> {
         let mut st = shared_ref.st();
         let k = st.calls.len();
         st.calls.push(k);
@@ -325,26 +392,26 @@ fn run_case<T: Val, U: Val>(case: &Case) -> Outcome {
                 match at {
                     At::BeforeDropInput => {
                         drop(st);
-                        let r = Err(InjectedErr { id });
+                        let r = Err(E::make(id));
                         drop(t);
                         r
                     }
                     At::AfterDropInput => {
                         drop(t);
-                        Err(InjectedErr { id })
+                        Err(E::make(id))
                     }
                     At::AfterBuildOutput => {
                         drop(t);
                         let u = U::make(fresh(&mut st));
                         drop(st);
-                        let r = Err(InjectedErr { id });
+                        let r = Err(E::make(id));
                         drop(u);
                         r
                     }
                     At::HoldingPrev => {
                         mutate_prev(&mut st, &mut prev);
                         drop(st);
-                        let r = Err(InjectedErr { id });
+                        let r = Err(E::make(id));
                         drop(t);
                         r
                     }
@@ -379,8 +446,8 @@ fn run_case<T: Val, U: Val>(case: &Case) -> Outcome {
     };
 
     // ---- the call ------------------------------------------------------------------------
-    let result: Result<Result<Vec<U>, InjectedErr>, Box<dyn Any + Send>> = match case.api {
-        Api::Try => catch_unwind(AssertUnwindSafe(|| try_convert_vec_in_place::<T, U, _, InjectedErr>(input, converter))),
+    let result: Result<Result<Vec<U>, E>, Box<dyn Any + Send>> = match case.api {
+        Api::Try => catch_unwind(AssertUnwindSafe(|| try_convert_vec_in_place::<T, U, _, E>(input, converter))),
         Api::Plain => catch_unwind(AssertUnwindSafe(|| {
             Ok(convert_vec_in_place::<T, U, _>(input, move |t, p| match converter(t, p) {
                 Ok(r) => r,
@@ -490,8 +557,10 @@ fn run_case<T: Val, U: Val>(case: &Case) -> Outcome {
                     out.ended = "err";
                     match planned_fault {
                         Some((i, Act::Err(_))) => {
-                            if e.id != FAULT_ID_BASE + i as u64 {
-                                out.v("C09/error-identity", format!("caller received error {:#x}, the converter returned {:#x}", e.id, fault_id));
+                            if let Some(got) = e.id() {
+                                if got != FAULT_ID_BASE + i as u64 {
+                                    out.v("C09/error-identity", format!("caller received error {:#x}, the converter returned {:#x}", got, fault_id));
+                                }
                             }
                         }
                         other => out.v("C09/error-identity", format!("caller received an error although the script was {:?}", other)),
@@ -673,7 +742,7 @@ struct Pair {
 
 macro_rules! pair {
     ($name:expr, $t:ty, $u:ty) => {
-        Pair { name: $name, run: run_case::<$t, $u>, desc: concat!(stringify!($t), " -> ", stringify!($u)) }
+        Pair { name: $name, run: run_case_any::<$t, $u>, desc: concat!(stringify!($t), " -> ", stringify!($u)) }
     };
 }
 macro_rules! mismatch {
@@ -783,7 +852,7 @@ fn gen_case(seed: u64, run: u64, mode: Mode, max_len: usize) -> Case {
     let extra_cap = *rng.pick(&[0, 0, 1, 7]);
     if mode == Mode::Mismatch {
         let ms = mismatches();
-        return Case { pair: rng.pick(&ms).name.to_string(), len, extra_cap, api: Api::Try, script: vec![] };
+        return Case { pair: rng.pick(&ms).name.to_string(), len, extra_cap, api: Api::Try, script: vec![], err: 0 };
     }
     let ps = pairs();
     let pair = rng.pick(&ps).name.to_string();
@@ -822,9 +891,10 @@ fn gen_case(seed: u64, run: u64, mode: Mode, max_len: usize) -> Case {
         if matches!(fault, Act::Err(_)) {
             api = Api::Try;
         }
-        return Case { pair, len, extra_cap, api, script };
+        let err = if matches!(fault, Act::Err(_)) { [0, 0, 1, 1, 2, 3][rng.below(6)] } else { 0 };
+        return Case { pair, len, extra_cap, api, script, err };
     }
-    Case { pair, len, extra_cap, api, script }
+    Case { pair, len, extra_cap, api, script, err: 0 }
 }
 
 /// Every (pair, len <= max_len, fault position, converted/abandoned pattern before it, fault kind).
@@ -850,7 +920,8 @@ fn enumerate_faults(max_len: usize, mut f: impl FnMut(Case)) {
                             if api == Api::Plain && matches!(fault, Act::Err(_)) {
                                 continue;
                             }
-                            f(Case { pair: pair.name.to_string(), len, extra_cap: (len + pos) % 2, api, script: script.clone() });
+                            let err = if matches!(fault, Act::Err(_)) { ((len + pos + pattern as usize) % 4) as u8 } else { 0 };
+                            f(Case { pair: pair.name.to_string(), len, extra_cap: (len + pos) % 2, api, script: script.clone(), err });
                         }
                     }
                 }
@@ -864,7 +935,7 @@ fn enumerate_mismatches(max_len: usize, mut f: impl FnMut(Case)) {
     for pair in mismatches() {
         for len in 0..=max_len {
             for extra_cap in [0, 3] {
-                f(Case { pair: pair.name.to_string(), len, extra_cap, api: Api::Try, script: vec![] });
+                f(Case { pair: pair.name.to_string(), len, extra_cap, api: Api::Try, script: vec![], err: 0 });
             }
         }
     }
@@ -885,7 +956,7 @@ fn enumerate_free(max_len: usize, mut f: impl FnMut(Case)) {
                     })
                     .collect();
                 for api in [Api::Try, Api::Plain] {
-                    f(Case { pair: pair.name.to_string(), len, extra_cap: pattern % 2, api, script: script.clone() });
+                    f(Case { pair: pair.name.to_string(), len, extra_cap: pattern % 2, api, script: script.clone(), err: 0 });
                 }
             }
         }
